@@ -559,7 +559,88 @@ def random_cases(ctx, n, seed, label="rand", nmax=12, depth=2, mv=False, seeds=(
 
 
 F14_TEXT = "F14 bucket doc_count on a multi-valued field counts values, not documents"
-TAG_TEXT = {"F14": F14_TEXT}
+F44_TEXT = ("F44 top_hits under a bucket aggregation comes back empty for some buckets: TopHitsSegmentCollector::prepare_max_bucket shrinks its "
+            "bucket vector (Vec::resize) when a later flush of the sub-aggregation buffer has a smaller maximum bucket id")
+TAG_TEXT = {"F14": F14_TEXT, "F44": F44_TEXT}
+
+
+def fixed_ids():
+    """findings of C14 repaired in /repo (fixed: lines of known_findings.json): no longer steered around"""
+    ids = set(x for x in os.environ.get("C14_ASSUME_FIXED", "").split(",") if x)
+    for line in vlib.load_known().get("fixed", []):
+        if "property=C14" in line:
+            ids.update(re.findall(r"\bF\d+\b", line))
+    return ids
+
+
+def flush_case(rng, cid, tag="flush"):
+    """A segment with more than 2048 documents under bucket aggregation > top_hits: the buffer that feeds the
+    sub-aggregation is flushed every 2048 documents, so the segment collector sees several flushes.  The tail of
+    the segment only holds values of its first documents, i.e. the last flush only touches the oldest bucket ids."""
+    n = rng.randint(2100, 2500)
+    nval = rng.randint(3, 12)
+    head = [rng.randint(-10, 30) for _ in range(3)]
+    docs = []
+    for i in range(n):
+        x = head[i] if i < 3 else (rng.randint(-10, -10 + nval * 3) if i < 2048 else rng.choice(head))
+        docs.append({"id": [i + 1], "cat": [rng.randrange(8)] if rng.random() < 0.9 else [], "v": [], "w": [x], "f": [x] if rng.random() < 0.9 else [],
+                     "d": [], "g": [1 if rng.random() < 0.7 else 0], "q": [2 * rng.randint(0, 15) + 1]})
+    th = lambda: gen_top_hits(rng)
+    sub = [["th", th()]] + ([["th2", th()]] if rng.random() < 0.3 else [])
+    kind = rng.choice(["hist", "hist", "terms_w", "nested", "range"])
+    if kind == "hist":
+        a = {"k": "histogram", "field": "w", "interval": rng.choice([1, 2, 3]), "offset": 0, "mdc": 1, "sub": sub}
+    elif kind == "terms_w":
+        a = {"k": "terms", "field": "w", "size": 100, "mdc": 1, "segsize": 1000, "segsize_set": True,
+             "ord": {"t": "key", "asc": True, "name": "", "prop": ""}, "sub": sub}
+    elif kind == "nested":
+        inner = {"k": "terms", "field": "w", "size": 100, "mdc": 1, "segsize": 1000, "segsize_set": True,
+                 "ord": {"t": "count", "asc": False, "name": "", "prop": ""}, "sub": sub}
+        a = {"k": "filter", "qf": "g", "qv": 1, "sub": [["t", inner]]}
+    else:
+        pts = sorted(rng.sample(range(-9, 28), 4))
+        inner = {"k": "histogram", "field": "w", "interval": 2, "offset": 1, "mdc": 1, "sub": sub}
+        a = {"k": "range", "field": "f", "ranges": [{"from": x, "to": y} for x, y in zip(pts, pts[1:])], "sub": [["h", inner]]}
+    cut = rng.randint(2060, n)
+    parts = [[list(range(cut))]] + ([[list(range(cut, n))]] if cut < n else [])
+    plan = [{"op": "collect", "h": 1, "part": 0}]
+    if len(parts) == 2:
+        plan += [{"op": "collect", "h": 2, "part": 1}, {"op": "merge", "a": 1, "b": 2}]
+    plan.append({"op": "final", "h": 1})
+    return {"id": cid, "tag": tag, "docs": docs, "parts": parts, "all": [list(range(n))], "query": "all" if rng.random() < 0.9 else "g1",
+            "req": [["a0", a]], "plan": plan}
+
+
+def flush_witness():
+    """10 histogram buckets first seen in the first 2048 documents, the last 52 documents all in the first bucket"""
+    n = 2100
+    docs = [{"id": [i + 1], "cat": [], "v": [], "w": [i % 10 if i < 2048 else 0], "f": [], "d": [], "g": [1], "q": [1]} for i in range(n)]
+    th = {"k": "top_hits", "size": 1, "sort": [["id", True]], "dv": ["id"]}
+    return {"id": 900009, "tag": "F44", "docs": docs, "parts": [[list(range(n))]], "all": [list(range(n))], "query": "all",
+            "req": [["h", {"k": "histogram", "field": "w", "interval": 1, "offset": 0, "mdc": 1, "sub": [["th", th]]}]],
+            "plan": [{"op": "collect", "h": 1, "part": 0}, {"op": "final", "h": 1}]}
+
+
+def flush_runs(ctx, n):
+    """several flushes of the sub-aggregation buffer inside one segment.  While F44 is open this is its dedicated
+    reproduction (witness only); once it is fixed the witness is a regression seed and the family runs by default."""
+    rng = random.Random(ctx.seed + 4400)
+    if "F44" in fixed_ids():
+        cases = [dict(flush_witness(), tag="seed F44")] + [flush_case(rng, 800000 + i) for i in range(n)]
+        ev = execute(ctx, cases, "flush")
+        count_obs(ctx, ev)
+        rej = judge(ctx, ev, cases, "flush")
+        log(f"[T] {len(cases)} multi-flush cases (flush), {len(rej)} rejected")
+        return
+    cases = [flush_witness()]
+    ev = execute(ctx, cases, "kf44")
+
+    def describe44(case, e, why):
+        return f"{F44_TEXT}: {why}"
+    rej = judge(ctx, ev, cases, "kf44", describe=describe44)
+    ctx.cov.setdefault("known_finding_reproductions", {})["F44"] = f"{len(rej)} of {len(cases)} cases rejected"
+    if not rej:
+        log("[kf] F44: the recorded finding did not reproduce")
 
 _DOCS3 = [{"id": [1], "cat": [3], "v": [8], "w": [1], "f": [], "d": [], "g": [1]},
           {"id": [2], "cat": [1], "v": [-7, -10, 2], "w": [2], "f": [], "d": [], "g": [1]},
@@ -611,7 +692,17 @@ def regression_seeds():
            "req": [["t", dict(_TERMS, field="g", sub=[["h", hq]])]], "plan": plan2},
           {"id": 900008, "tag": "seed fused fractional", "docs": dq, "parts": [[s2], [s1]], "all": [s2, s1], "query": "all",
            "req": [["t", dict(_TERMS, field="g", sub=[["h", dict(hq, mdc=0)]])]], "plan": plan2}]
-    return [f22, f23, f24, f25] + fz, f13
+    # fused path only for FULL histogram columns: terms on the full column g over an optional (w) / multi-valued (v)
+    # histogram column must take the general path (row ids are not doc ids there)
+    do = [{"id": [i + 1], "cat": [], "v": [3 * i, 3 * i + 1] if i % 3 == 0 else ([] if i % 3 == 1 else [3 * i]),
+           "w": [2 * i] if i % 2 else [], "f": [], "d": [], "g": [i % 2], "q": [1]} for i in range(12)]
+    ho = {"k": "histogram", "field": "w", "interval": 4, "offset": 0, "mdc": 1, "sub": []}
+    s3 = [list(range(5)), list(range(5, 12))]
+    fo = {"id": 900010, "tag": "seed fused optional column", "docs": do, "parts": [[s3[0]], [s3[1]]], "all": s3, "query": "all",
+          "req": [["t", dict(_TERMS, field="g", sub=[["h", ho]])]], "plan": plan2}
+    fm = {"id": 900011, "tag": "seed fused multi-valued column", "docs": do, "parts": [[s3[0]], [s3[1]]], "all": s3, "query": "all",
+          "req": [["t", dict(_TERMS, field="g", sub=[["h", dict(ho, field="v", interval=5)]])]], "plan": plan2}
+    return [f22, f23, f24, f25, fo] + fz, f13 + [fm]
 
 
 def known_finding_runs(ctx):
@@ -727,6 +818,7 @@ def run(ctx):
     random_cases(ctx, 220 if ctx.quick else 2500, ctx.seed + 5000, label="mv", mv=True, seeds=seeds_mv)
     random_cases(ctx, 20 if ctx.quick else 150, ctx.seed + 7000, label="big", nmax=150, depth=2)
     random_cases(ctx, 130 if ctx.quick else 2500, ctx.seed + 9000, label="deep", nmax=9, depth=3)
+    flush_runs(ctx, 3 if ctx.quick else 25)
     known_finding_runs(ctx)
     binding_selftest(ctx, ev_r, cases_r)
     c = cases_r[len(seeds)]
